@@ -51,6 +51,130 @@ def _bind(call, fnode, skip_self=True):
     return out
 
 
+def row_vector_rotation(ctx, repo, pci):
+    """PARITY: MDAnalysis keeps coordinates as ROW vectors (n_atoms, 3).  `atoms.rotate(R)` applies x -> R·x, which for row vectors is
+    `positions @ R.T`.  A hand-written `positions @ R` with R = Rotation.from_quat(q).as_matrix() applies R^T, the inverse rotation."""
+    import copy as _cp
+
+    def resolver(fn):
+        defs = {}
+        for n in ast.walk(fn):
+            if isinstance(n, ast.Assign) and len(n.targets) == 1:
+                t = n.targets[0]
+                if isinstance(t, ast.Name):
+                    defs.setdefault(t.id, []).append(n.value)
+                elif isinstance(t, ast.Tuple) and all(isinstance(x, ast.Name) for x in t.elts):
+                    v = n.value
+                    if isinstance(v, ast.Call) and isinstance(v.func, ast.Attribute) and isinstance(v.func.value, ast.Name) and v.func.value.id == "self":
+                        m = pci.find_method(v.func.attr)
+                        rets = [r.value for r in ast.walk(m.node) if isinstance(r, ast.Return) and r.value is not None] if m is not None else []
+                        if len(rets) == 1 and isinstance(rets[0], ast.Tuple) and len(rets[0].elts) == len(t.elts):
+                            hd = resolver(m.node)
+                            for x, e in zip(t.elts, rets[0].elts):
+                                defs.setdefault(x.id, []).append(("resolved", expand(e, hd, 0)))
+                    elif isinstance(v, ast.Tuple) and len(v.elts) == len(t.elts):
+                        for x, e in zip(t.elts, v.elts):
+                            defs.setdefault(x.id, []).append(e)
+            if isinstance(n, (ast.For, ast.comprehension)):
+                it, tg = n.iter, n.target
+                if isinstance(it, ast.Call) and isinstance(it.func, ast.Name) and it.func.id == "enumerate" and it.args and isinstance(tg, ast.Tuple) and len(tg.elts) == 2:
+                    it, tg = it.args[0], tg.elts[1]
+                if isinstance(it, ast.Call) and isinstance(it.func, ast.Name) and it.func.id == "zip" and isinstance(tg, ast.Tuple) and len(tg.elts) == len(it.args):
+                    for x, a in zip(tg.elts, it.args):
+                        if isinstance(x, ast.Name):
+                            defs.setdefault(x.id, []).append(a)        # an element of `a`
+                elif isinstance(tg, ast.Name):
+                    defs.setdefault(tg.id, []).append(it)
+        return defs
+
+    def expand(e, defs, depth):
+        if depth > 5:
+            return e
+
+        class Tr(ast.NodeTransformer):
+            def visit_Name(self, node):
+                ds = defs.get(node.id, [])
+                if isinstance(node.ctx, ast.Load) and len(ds) == 1:
+                    d = ds[0]
+                    if isinstance(d, tuple):
+                        return _cp.deepcopy(d[1])
+                    return expand(_cp.deepcopy(d), defs, depth + 1)
+                return node
+
+            def visit_Call(self, node):
+                self.generic_visit(node)
+                if isinstance(node.func, ast.Attribute) and isinstance(node.func.value, ast.Name) and node.func.value.id == "self" and not node.args and not node.keywords:
+                    m = pci.find_method(node.func.attr)
+                    if m is not None:
+                        rets = [r.value for r in ast.walk(m.node) if isinstance(r, ast.Return) and r.value is not None]
+                        if len(rets) == 1 and not isinstance(rets[0], ast.Tuple):
+                            return expand(_cp.deepcopy(rets[0]), resolver(m.node), depth + 1)
+                return node
+        return Tr().visit(_cp.deepcopy(e))
+
+    def rot_parity(e):
+        """number of transpositions (mod 2) around a scipy rotation matrix; None if e is not one"""
+        par = 0
+        cur = e
+        for _ in range(8):
+            if isinstance(cur, ast.Attribute) and cur.attr == "T":
+                par, cur = par + 1, cur.value
+            elif isinstance(cur, ast.Call) and isinstance(cur.func, ast.Attribute) and cur.func.attr == "transpose" and not cur.args:
+                par, cur = par + 1, cur.func.value
+            elif isinstance(cur, ast.Call) and src(cur.func) in ("np.transpose", "numpy.transpose") and len(cur.args) == 1:
+                par, cur = par + 1, cur.args[0]
+            elif isinstance(cur, ast.Subscript):
+                cur = cur.value                 # one matrix of a stack
+            elif isinstance(cur, ast.Call) and isinstance(cur.func, ast.Attribute) and cur.func.attr in ("copy", "astype"):
+                cur = cur.func.value
+            elif isinstance(cur, ast.Call) and src(cur.func) in ("np.asarray", "np.array", "numpy.asarray", "numpy.array") and cur.args:
+                cur = cur.args[0]
+            else:
+                break
+        if isinstance(cur, ast.Call) and isinstance(cur.func, ast.Attribute) and cur.func.attr in ("as_matrix", "as_dcm"):
+            inv = sum(1 for x in ast.walk(cur.func.value) if isinstance(x, ast.Call) and isinstance(x.func, ast.Attribute) and x.func.attr == "inv")
+            return (par + inv) % 2
+        return None
+
+    def row_positions(e):
+        if isinstance(e, ast.Attribute) and e.attr == "T":
+            return False
+        return any(isinstance(x, ast.Attribute) and x.attr == "positions" for x in ast.walk(e)) and \
+            not any(isinstance(x, ast.Attribute) and x.attr == "T" for x in ast.walk(e))
+
+    seen = 0
+    bad = []
+    for name, fm in sorted(pci.methods.items()):
+        defs = resolver(fm.node)
+        for n in ast.walk(fm.node):
+            pair = None
+            if isinstance(n, ast.BinOp) and isinstance(n.op, ast.MatMult):
+                pair = (n.left, n.right)
+            elif isinstance(n, ast.Call) and src(n.func) in ("np.dot", "np.matmul", "numpy.dot", "numpy.matmul") and len(n.args) == 2:
+                pair = (n.args[0], n.args[1])
+            elif isinstance(n, ast.Call) and isinstance(n.func, ast.Attribute) and n.func.attr == "dot" and len(n.args) == 1:
+                pair = (n.func.value, n.args[0])
+            if pair is None:
+                continue
+            L, R = expand(pair[0], defs, 0), expand(pair[1], defs, 0)
+            rp = rot_parity(R)
+            if rp is None or not row_positions(L):
+                continue
+            seen += 1
+            ctx.analysed(fm)
+            if rp == 0:
+                bad.append((fm, n))
+    ctx.instance("PARITY", max(1, seen))
+    for fm, n in bad:
+        ctx.violate("PARITY", "C10.rowvector", "atom coordinates are row vectors (n_atoms, 3): multiplying them from the right by the rotation "
+                    "matrix R = Rotation.from_quat(q).as_matrix() applies R^T, the INVERSE of the grid rotation (atoms.rotate(R) is "
+                    "positions @ R.T); frames are right only for rotations equal to their own inverse", fm.where, src(n)[:140],
+                    witness="positions @ R  instead of  positions @ R.T")
+    if not bad:
+        ctx.ok("PARITY", "C10.rowvector", f"no hand-written product of row-vector coordinates with an untransposed rotation matrix ({seen} "
+               "matrix products of coordinates with rotation matrices examined)", pci.module.relpath)
+
+
 def run(ctx, repo, tier):
     pci = repo.cls("molgri.molecules.pts", "Pseudotrajectory")
     gen = pci.methods.get("generate_pseudotrajectory")
@@ -631,6 +755,8 @@ def run(ctx, repo, tier):
                     src(calls_gen[0]), witness="no init-once guard on self.pt")
     else:
         ctx.inconclusive("IDEMP", "C10.once", "generator use not recognised", gp.where)
+    # ---------------- hand-written rotation of row-vector coordinates
+    row_vector_rotation(ctx, repo, pci)
     # ---------------- sibling selections of the second molecule
     selection_siblings(ctx, repo, "C10")
     # ---------------- quaternion convention in assignment
